@@ -62,13 +62,17 @@ class Plane:
 
         if mask is None:
             mask = np.copy(self._amplitude)
-            if mask.ndim == 0 and mask != 0 and self._opd.ndim > 1:
-                # a scalar amplitude with a sampled OPD: the plane has the
-                # shape of its OPD
-                mask = np.full(self._opd.shape, mask)
         else:
             # never write into the caller's array
             mask = np.array(mask)
+
+        if mask.ndim == 0 and mask != 0:
+            # a scalar (amplitude or mask) that transmits everything, with a
+            # sampled amplitude or OPD: the plane has the shape of that array
+            if self._amplitude.ndim > 1:
+                mask = np.full(self._amplitude.shape, mask)
+            elif self._opd.ndim > 1:
+                mask = np.full(self._opd.shape, mask)
 
         mask[mask != 0] = 1
         if mask.ndim == 3:
